@@ -26,7 +26,7 @@ from .c15 import designed_variants, MODULE
 LEVEL = "fault_enumeration"
 SHARDS = {"quick": 8, "thorough": 16}
 REQUIRED = ("crash_points_injected", "torn_writes_injected", "followers_after_crash_probed", "followers_with_recycled_pid_probed",
-            "schedules_in_a_directory_without_cache_directory", "schedules_executed",
+            "schedules_in_a_directory_without_cache_directory", "schedules_of_forked_workers", "schedules_executed",
             "distinct_schedules", "concurrent_definitions_probed", "stress_definitions_probed", "crashes_during_rewrite",
             "schedules_with_different_declarations", "schedules_with_identical_declarations")
 MIN_NONTRIVIAL = 30
@@ -192,16 +192,23 @@ def one_schedule(run, scratch, sid, va, vb, pre, choices, default, vlate):
             f.write(va.define_action(MODULE)["source"])
         run.count("schedules_in_a_directory_without_cache_directory")
         return _run_schedule(run, wd, sid, va, vb, pre, choices, default, vlate, ja, jb, fresh=True)
+    forked = False
+    if pre == "forked-workers":
+        # the two definers are workers forked from one process that imported the library first (multiprocessing, pre-fork servers)
+        pre = None
+        forked = True
+        run.count("schedules_of_forked_workers")
     if pre is not None:
         procs.run_child(procs.base_job(procs.private_view(wd, "pre"), [pre.define_action(MODULE)], bytecode=True), wd)
-    ja = procs.base_job(procs.private_view(wd, "A"), [va.define_action(MODULE)], bytecode=bool(sid % 2))
-    jb = procs.base_job(procs.private_view(wd, "B"), [vb.define_action(MODULE)], bytecode=bool((sid // 2) % 2))
-    return _run_schedule(run, wd, sid, va, vb, pre, choices, default, vlate, ja, jb)
+    ja = procs.base_job(procs.private_view(wd, "A"), [va.define_action(MODULE)], bytecode=bool(sid % 2) and not forked)
+    jb = procs.base_job(procs.private_view(wd, "B"), [vb.define_action(MODULE)], bytecode=bool((sid // 2) % 2) and not forked)
+    return _run_schedule(run, wd, sid, va, vb, pre, choices, default, vlate, ja, jb, forked=forked)
 
 
-def _run_schedule(run, wd, sid, va, vb, pre, choices, default, vlate, ja, jb, fresh=False):
-    ra, rb, trace, decisions = procs.run_schedule(ja, jb, wd, choices, default)
-    witness = {"scenario": "schedule" if not fresh else "schedule in a directory without a cache directory", "A": va.tag, "B": vb.tag,
+def _run_schedule(run, wd, sid, va, vb, pre, choices, default, vlate, ja, jb, fresh=False, forked=False):
+    ra, rb, trace, decisions = (procs.run_forked_schedule if forked else procs.run_schedule)(ja, jb, wd, choices, default)
+    witness = {"scenario": ("schedule of two forked workers" if forked else "schedule") if not fresh else "schedule in a directory without a cache directory",
+               "A": va.tag, "B": vb.tag,
                "pre_seeded_with": pre.tag if pre else None, "schedule": trace,
                "source_A": va.source, "source_B": vb.source}
     ok = True
@@ -214,7 +221,7 @@ def _run_schedule(run, wd, sid, va, vb, pre, choices, default, vlate, ja, jb, fr
         run.count("schedules_with_identical_declarations" if va.tag == vb.tag else "schedules_with_different_declarations")
         key = common.stable_hash(trace)
         run.cover("distinct_schedules_set", key)
-        run.case(key=("sched", va.tag, vb.tag, pre.tag if pre else ("fresh" if fresh else None), key), nontrivial=True)
+        run.case(key=("sched", va.tag, vb.tag, pre.tag if pre else ("fresh" if fresh else ("forked" if forked else None)), key), nontrivial=True)
         ok = judge_define(run, ra, va, dict(witness, process="A"), "concurrent_definitions_probed") and \
             judge_define(run, rb, vb, dict(witness, process="B"), "concurrent_definitions_probed")
         if ok:
@@ -235,6 +242,8 @@ def schedule_part(run, rng, variants, scratch, quick):
         (v["i1i2-unpackonly"], v["i2i1-unpackonly"], None),     # declarations that differ only in their generated unpack code
         (v["i1i2-packonly"], v["i2i1-packonly"], None),         # ... only in their generated pack code
         (v["i1i2"], v["i1i2"], "fresh-directory"),
+        (v["i1i2"], v["i2i1"], "forked-workers"),
+        (v["i2i1"], v["i2i1"], "forked-workers"),
     ]
     sid = 0
     if quick:
